@@ -85,6 +85,11 @@ func loadEngine(repo, pkgPath string, overlay map[string][]byte) (*Engine, error
 	registerIntrinsics(e)
 	registerNatives(e)
 	registerVFS(e)
+	// the pointer/value helpers of swag are pure and need none of the package's init-time state
+	for _, t := range []string{"String", "Bool", "Int", "Int32", "Int64", "Uint", "Uint16", "Uint32", "Uint64", "Float32", "Float64"} {
+		e.allowFns["github.com/go-openapi/swag."+t] = true
+		e.allowFns["github.com/go-openapi/swag."+t+"Value"] = true
+	}
 	return e, nil
 }
 
